@@ -9,6 +9,7 @@ import (
 	"fmt"
 	"sort"
 	"strings"
+	"sync"
 
 	"github.com/bradenaw/juniper/container/xheap"
 	"github.com/bradenaw/juniper/iterator"
@@ -425,6 +426,118 @@ func (s pqSys) Run(path []seqx.Op) (res seqx.Result) {
 	return
 }
 
+// heapArrays enumerates every heap-ordered array of length n over `prios` priorities (a child is
+// never smaller than its parent): these are exactly the reachable heap states of that size.
+func heapArrays(n, prios int) [][]int {
+	var out [][]int
+	a := make([]int, n)
+	var rec func(i int)
+	rec = func(i int) {
+		if i == n {
+			out = append(out, append([]int(nil), a...))
+			return
+		}
+		lo := 0
+		if i > 0 {
+			lo = a[(i-1)/2]
+		}
+		for v := lo; v < prios; v++ {
+			a[i] = v
+			rec(i + 1)
+		}
+	}
+	rec(0)
+	return out
+}
+
+// bigQueues: for every heap state of sizes lo..hi, every single Remove / Update / Pop, followed by a
+// full observation and a complete drain. Reaches the deep-heap cases (an inner slot whose replacement
+// comes from another subtree and has to sift UP) that the closure over 6-7 keys cannot contain.
+func bigQueues(run *vx.Run, lo, hi, prios int) (states, trans int64) {
+	type job struct{ arr []int }
+	var jobs [][]int
+	for n := lo; n <= hi; n++ {
+		jobs = append(jobs, heapArrays(n, prios)...)
+	}
+	var mu sync.Mutex
+	vx.Parallel(len(jobs), func(ji int) {
+		arr := jobs[ji]
+		n := len(arr)
+		build := func() (xheap.PriorityQueue[int, int], map[int]int) {
+			init := make([]kp, n)
+			model := map[int]int{}
+			for i, p := range arr {
+				init[i] = kp{K: i, P: p + 1}
+				model[i] = p + 1
+			}
+			return xheap.NewPriorityQueue[int, int](func(a, b int) bool { return a < b }, init), model
+		}
+		var local int64
+		check := func(what string, q xheap.PriorityQueue[int, int], model map[int]int) {
+			local++
+			bad := ""
+			if p := vx.Catch(func() {
+				if q.Len() != len(model) {
+					bad = fmt.Sprintf("Len()=%d, model %d", q.Len(), len(model))
+					return
+				}
+				for k := 0; k < n; k++ {
+					pr, ok := model[k]
+					if q.Contains(k) != ok || q.Priority(k) != pr {
+						bad = fmt.Sprintf("Contains/Priority(k%d) = %v/%d, model %v/%d", k, q.Contains(k), q.Priority(k), ok, pr)
+						return
+					}
+				}
+				last := 0
+				for len(model) > 0 {
+					min := 1 << 30
+					for _, pr := range model {
+						if pr < min {
+							min = pr
+						}
+					}
+					k := q.Pop()
+					pr, ok := model[k]
+					if !ok || pr != min || pr < last {
+						bad = fmt.Sprintf("draining: Pop returned k%d (priority %d, held %v) while the minimum held priority is %d", k, pr, ok, min)
+						return
+					}
+					last = pr
+					delete(model, k)
+				}
+				if q.Len() != 0 {
+					bad = "queue not empty after draining the model"
+				}
+			}); p != nil {
+				bad = fmt.Sprintf("panic: %v", p)
+			}
+			if bad != "" {
+				run.Violate(vx.Violation{Signature: "pq/big-heap/" + strings.SplitN(what, "(", 2)[0], Detail: fmt.Sprintf("queue built from heap array (priorities) %v, then %s: %s", arr, what, bad),
+					Replay: map[string]any{"kind": "bigheap", "array": arr, "op": what}})
+			}
+		}
+		for k := 0; k < n; k++ {
+			q, model := build()
+			q.Remove(k)
+			delete(model, k)
+			check(fmt.Sprintf("Remove(k%d)", k), q, model)
+			for p := 1; p <= prios; p++ {
+				q, model := build()
+				q.Update(k, p)
+				model[k] = p
+				check(fmt.Sprintf("Update(k%d,p=%d)", k, p), q, model)
+			}
+		}
+		q, model := build()
+		check("nothing", q, model)
+		mu.Lock()
+		states++
+		trans += local
+		mu.Unlock()
+	})
+	return
+}
+
 func allLists(symbols, maxLen int) [][]int {
 	out := [][]int{{}}
 	prev := [][]int{{}}
@@ -529,6 +642,13 @@ func main() {
 				Replay: map[string]any{"kind": "pq", "cmp": cmp, "ops": v.Path, "readable": ps.pathStr(v.Path)}})
 		}
 	}
+	lo, hi := 8, 13
+	if !run.Quick() {
+		hi = 15
+	}
+	bs, bt := bigQueues(run, lo, hi, 3)
+	run.AddCounts(bs, bt, bt)
+	configs = append(configs, map[string]any{"container": "PriorityQueue", "mode": "every heap-ordered array of sizes 8.." + fmt.Sprint(hi) + " over 3 priorities x every single Remove/Update/Pop, then full observation and drain", "heap_states": bs, "transitions": bt})
 	run.Set("configurations", configs)
 	run.Set("rule", "state = heap array order as exposed by Iterate (priorities; ids relabelled); closure over Push/Pop resp. Update/Remove/Pop from every initial slice; full observation (Len, Peek, Contains/Priority of every key incl. absent, Iterate) after every transition")
 	run.Assume("items are opaque to the heap except through less/compare (parametricity), so tied items are interchangeable in the state key")
